@@ -1,10 +1,21 @@
 // h_C11.cpp — harness for C11: operation sequences on real GaussianMixture /
 // Gaussian / ParticleSet objects.  Case: kind gm | gauss | pset, meta c l ci q
-// (constructor arguments), word ops (tokens, see props/C11.py), mat <name>
-// (+ int <name>.r, <name>.c) for every noise covariance.  After the constructor
-// (step 0) and after every operation: every public descriptor, every storage
-// matrix with its real dimensions (subclass exposing the protected members) and
-// the per-component accessor views taken through the public accessors.
+// ctor (constructor arguments and overload), word ops (tokens, see props/C11.py),
+// mat <name> (+ int <name>.r, <name>.c) for every noise covariance.  After the
+// constructor (step 0) and after every operation: every public descriptor, every
+// storage matrix with its real dimensions (subclass exposing the protected
+// members) and the views taken through EVERY public accessor overload (block and
+// element, const and non-const, whole-matrix), plus the overloads that rely on
+// default arguments (constructors without use_quaternion, resize without
+// dim_circular).
+//
+// Operations outside the premises of the model ("outside": square augmentation
+// of a 0-component object, += of a mismatched or aliased operand, augmentation
+// with the object's own covariance()) are executed only in a build that turns the
+// undefined behaviour into a detectable failure (Eigen assertions: exit 42;
+// AddressSanitizer for the dangling Ref); otherwise the sequence stops with
+// "skipped <k>".  If such an operation returns normally, "<k>.survived 1" is
+// printed and the plug-in reports it.
 #define VF_MAIN
 #include "common.hpp"
 #include <BayesFilters/Gaussian.h>
@@ -15,26 +26,40 @@
 using namespace bfl;
 using namespace Eigen;
 
+#ifdef NDEBUG
+static const bool kEigenAssert = false;
+#else
+static const bool kEigenAssert = true;
+#endif
+#if defined(__SANITIZE_ADDRESS__)
+static const bool kAsan = true;
+#else
+static const bool kAsan = false;
+#endif
+
 struct XGM : public GaussianMixture {
     XGM(std::size_t c, std::size_t l, std::size_t ci, bool q) : GaussianMixture(c, l, ci, q) {}
-    XGM() : GaussianMixture() {}
+    XGM(std::size_t c, std::size_t l, std::size_t ci) : GaussianMixture(c, l, ci) {}   // default use_quaternion
     XGM(std::size_t c, std::size_t d) : GaussianMixture(c, d) {}
+    XGM() : GaussianMixture() {}
     MatrixXd& M() { return mean_; }
     MatrixXd& C() { return covariance_; }
     VectorXd& W() { return weight_; }
 };
 struct XG : public Gaussian {
     XG(std::size_t l, std::size_t ci, bool q) : Gaussian(l, ci, q) {}
-    XG() : Gaussian() {}
+    XG(std::size_t l, std::size_t ci) : Gaussian(l, ci) {}                              // default use_quaternion
     explicit XG(std::size_t l) : Gaussian(l) {}
+    XG() : Gaussian() {}
     MatrixXd& M() { return mean_; }
     MatrixXd& C() { return covariance_; }
     VectorXd& W() { return weight_; }
 };
 struct XPS : public ParticleSet {
     XPS(std::size_t c, std::size_t l, std::size_t ci, bool q) : ParticleSet(c, l, ci, q) {}
-    XPS() : ParticleSet() {}
+    XPS(std::size_t c, std::size_t l, std::size_t ci) : ParticleSet(c, l, ci) {}        // default use_quaternion
     XPS(std::size_t c, std::size_t d) : ParticleSet(c, d) {}
+    XPS() : ParticleSet() {}
     XPS(const ParticleSet& p) : ParticleSet(p) {}
     MatrixXd& M() { return mean_; }
     MatrixXd& C() { return covariance_; }
@@ -55,7 +80,10 @@ static MatrixXd getq(const vf::Case& c, const std::string& name) {
     return c.mat(name);
 }
 
-// fill through the public accessors of GaussianMixture
+// bitwise equality of two doubles (uninitialised cells may hold NaN patterns)
+static bool beq(double x, double y) { return std::memcmp(&x, &y, sizeof x) == 0; }
+
+// fill through the public whole-matrix accessors of GaussianMixture
 static long fill_gm(GaussianMixture& g, long b) {
     Ref<MatrixXd> m = g.GaussianMixture::mean();
     for (long j = 0; j < m.cols(); j++) for (long i = 0; i < m.rows(); i++) m(i, j) = double(b + j * m.rows() + i);
@@ -84,46 +112,100 @@ static void dump_fields(int k, X& g, int ret) {
     vf::out_mat(P(k, "w"), g.W());
 }
 
-// accessor views; returns false (and prints acc_oob 1) if an accessor would leave the storage
+// names of accessor overloads that do not address the storage cell they should
+struct Bad {
+    std::vector<std::string> v;
+    void chk(bool ok, const char* what) { if (!ok) { for (auto& s : v) if (s == what) return; v.push_back(what); } }
+    void out(int k, const char* field) { if (v.empty()) v.push_back("-"); vf::out_word(P(k, field), v); }
+};
+
+// GaussianMixture accessors; returns false (and prints acc_oob 1) if an accessor would leave the storage
 template <class X>
 static bool dump_acc(int k, X& g) {
     GaussianMixture& b = g;
+    const GaussianMixture& cb = g;
     const long n = b.components, d = b.dim, dc = b.dim_covariance;
     bool ok = n <= g.M().cols() && d <= g.M().rows() && n <= g.W().size() && dc <= g.C().rows() && dc * n <= g.C().cols();
     vf::out_int(P(k, "acc_oob"), ok ? 0 : 1);
     if (!ok) return false;
     vf::Entry e("GaussianMixture::accessors");
-    const GaussianMixture& cb = g;
     MatrixXd amean(g.M().rows(), n), acov(g.C().rows(), dc * n), emean(d, n), ecov(dc, dc * n);
     VectorXd aw(n);
-    bool const_same = true;
+    Bad bad;
+    // whole-matrix accessors, non-const and const
+    {
+        Ref<MatrixXd> m = b.GaussianMixture::mean(); const Ref<const MatrixXd> cm = cb.GaussianMixture::mean();
+        bad.chk(m.data() == g.M().data() && m.rows() == g.M().rows() && m.cols() == g.M().cols() && m.outerStride() == g.M().rows(), "mean()");
+        bad.chk(cm.data() == g.M().data() && cm.rows() == g.M().rows() && cm.cols() == g.M().cols(), "mean()const");
+        Ref<MatrixXd> cv = b.GaussianMixture::covariance(); const Ref<const MatrixXd> ccv = cb.GaussianMixture::covariance();
+        bad.chk(cv.data() == g.C().data() && cv.rows() == g.C().rows() && cv.cols() == g.C().cols(), "covariance()");
+        bad.chk(ccv.data() == g.C().data() && ccv.rows() == g.C().rows() && ccv.cols() == g.C().cols(), "covariance()const");
+        Ref<VectorXd> w = b.GaussianMixture::weight(); const Ref<const VectorXd> cw = cb.GaussianMixture::weight();
+        bad.chk(w.data() == g.W().data() && w.size() == g.W().size(), "weight()");
+        bad.chk(cw.data() == g.W().data() && cw.size() == g.W().size(), "weight()const");
+    }
     for (long i = 0; i < n; i++) {
-        amean.col(i) = b.GaussianMixture::mean(i);
-        acov.middleCols(dc * i, dc) = b.GaussianMixture::covariance(i);
+        Ref<VectorXd> mi = b.GaussianMixture::mean(i);
+        const Ref<const VectorXd> cmi = cb.GaussianMixture::mean(i);
+        Ref<MatrixXd> ci = b.GaussianMixture::covariance(i);
+        const Ref<const MatrixXd> cci = cb.GaussianMixture::covariance(i);
+        amean.col(i) = mi;
+        acov.middleCols(dc * i, dc) = ci;
         aw(i) = b.GaussianMixture::weight(i);
-        for (long j = 0; j < d; j++) emean(j, i) = b.GaussianMixture::mean(i, j);
-        for (long j = 0; j < dc; j++) for (long kk = 0; kk < dc; kk++) ecov(j, dc * i + kk) = b.GaussianMixture::covariance(i, j, kk);
-        // const overloads address the same cells
-        const_same = const_same && cb.GaussianMixture::mean(i).data() == b.GaussianMixture::mean(i).data()
-                     && cb.GaussianMixture::covariance(i).data() == b.GaussianMixture::covariance(i).data()
-                     && &cb.GaussianMixture::weight(i) == &b.GaussianMixture::weight(i);
+        // const block overloads: same cells (address and extent)
+        bad.chk(cmi.data() == mi.data() && cmi.size() == mi.size(), "mean(i)const");
+        bad.chk(cci.data() == ci.data() && cci.rows() == ci.rows() && cci.cols() == ci.cols() && cci.outerStride() == ci.outerStride(), "covariance(i)const");
+        bad.chk(&cb.GaussianMixture::weight(i) == &b.GaussianMixture::weight(i), "weight(i)const");
+        for (long j = 0; j < d; j++) {
+            emean(j, i) = b.GaussianMixture::mean(i, j);
+            bad.chk(&cb.GaussianMixture::mean(i, j) == &b.GaussianMixture::mean(i, j) && beq(cb.GaussianMixture::mean(i, j), emean(j, i)), "mean(i,j)const");
+        }
+        for (long j = 0; j < dc; j++) for (long kk = 0; kk < dc; kk++) {
+            ecov(j, dc * i + kk) = b.GaussianMixture::covariance(i, j, kk);
+            bad.chk(&cb.GaussianMixture::covariance(i, j, kk) == &b.GaussianMixture::covariance(i, j, kk)
+                    && beq(cb.GaussianMixture::covariance(i, j, kk), ecov(j, dc * i + kk)), "covariance(i,j,k)const");
+        }
     }
     vf::out_mat(P(k, "amean"), amean);
     vf::out_mat(P(k, "acov"), acov);
     vf::out_mat(P(k, "aw"), aw);
     vf::out_mat(P(k, "emean"), emean);
     vf::out_mat(P(k, "ecov"), ecov);
-    vf::out_int(P(k, "const_same"), const_same ? 1 : 0);
+    bad.out(k, "acc_bad");
     return true;
 }
 
+// Gaussian::mean() / mean(i) / covariance() / covariance(i,j) / weight(), non-const and const
 static void dump_gauss_acc(int k, XG& g) {
     vf::Entry e("Gaussian::accessors");
-    MatrixXd m = g.mean();
-    MatrixXd cv = g.covariance();
+    Gaussian& b = g;
+    const Gaussian& cb = g;
+    const long d = std::min<long>(b.dim, g.M().rows()), dc = std::min<long>(b.dim_covariance, g.C().rows());
+    MatrixXd m = b.mean();
+    MatrixXd cv = b.covariance();
     vf::out_mat(P(k, "gmean"), m);
     vf::out_mat(P(k, "gcov"), cv);
-    vf::out_num(P(k, "gweight"), g.weight());
+    vf::out_num(P(k, "gweight"), b.weight());
+    MatrixXd gemean(d, 1), gecov(dc, std::min<long>(dc, g.C().cols()));
+    Bad bad;
+    {
+        Ref<VectorXd> r = b.mean(); const Ref<const VectorXd> cr = cb.mean();
+        bad.chk(cr.data() == r.data() && cr.size() == r.size(), "Gaussian::mean()const");
+        Ref<MatrixXd> c = b.covariance(); const Ref<const MatrixXd> cc = cb.covariance();
+        bad.chk(cc.data() == c.data() && cc.rows() == c.rows() && cc.cols() == c.cols(), "Gaussian::covariance()const");
+        bad.chk(&cb.weight() == &b.weight(), "Gaussian::weight()const");
+    }
+    for (long i = 0; i < d; i++) {
+        gemean(i, 0) = b.mean(i);
+        bad.chk(&cb.mean(i) == &b.mean(i) && beq(cb.mean(i), gemean(i, 0)), "Gaussian::mean(i)const");
+    }
+    for (long i = 0; i < gecov.rows(); i++) for (long j = 0; j < gecov.cols(); j++) {
+        gecov(i, j) = b.covariance(i, j);
+        bad.chk(&cb.covariance(i, j) == &b.covariance(i, j) && beq(cb.covariance(i, j), gecov(i, j)), "Gaussian::covariance(i,j)const");
+    }
+    vf::out_mat(P(k, "gemean"), gemean);
+    vf::out_mat(P(k, "gecov"), gecov);
+    bad.out(k, "gacc_bad");
 }
 
 static bool dump_ps(int k, XPS& p, int ret) {
@@ -135,13 +217,28 @@ static bool dump_ps(int k, XPS& p, int ret) {
     vf::out_int(P(k, "state_oob"), ok ? 0 : 1);
     if (!ok) return false;
     vf::Entry e("ParticleSet::accessors");
+    ParticleSet& b = p;
+    const ParticleSet& cb = p;
     MatrixXd astate(p.St().rows(), n), estate(d, n);
+    Bad bad;
+    {
+        Ref<MatrixXd> s = b.state(); const Ref<const MatrixXd> cs = cb.state();
+        bad.chk(s.data() == p.St().data() && s.rows() == p.St().rows() && s.cols() == p.St().cols(), "state()");
+        bad.chk(cs.data() == p.St().data() && cs.rows() == p.St().rows() && cs.cols() == p.St().cols(), "state()const");
+    }
     for (long i = 0; i < n; i++) {
-        astate.col(i) = p.state(i);
-        for (long j = 0; j < d; j++) estate(j, i) = p.state(i, j);
+        Ref<MatrixXd> si = b.state(i);
+        const Ref<const MatrixXd> csi = cb.state(i);
+        astate.col(i) = si;
+        bad.chk(csi.data() == si.data() && csi.rows() == si.rows() && csi.cols() == si.cols(), "state(i)const");
+        for (long j = 0; j < d; j++) {
+            estate(j, i) = b.state(i, j);
+            bad.chk(&cb.state(i, j) == &b.state(i, j) && beq(cb.state(i, j), estate(j, i)), "state(i,j)const");
+        }
     }
     vf::out_mat(P(k, "astate"), astate);
     vf::out_mat(P(k, "estate"), estate);
+    bad.out(k, "sacc_bad");
     return true;
 }
 
@@ -152,11 +249,43 @@ static long fill_ps(XPS& p, long b) {
     return b;
 }
 
-static void do_resize(XG& g, const std::vector<long>& v) { vf::Entry e("Gaussian::resize"); g.resize(v.at(0), v.at(1)); }
-static void do_resize(XGM& g, const std::vector<long>& v) { vf::Entry e("GaussianMixture::resize"); g.resize(v.at(0), v.at(1), v.at(2)); }
+// an operation outside the model's premises: returns false if this build cannot detect the failure
+// (the sequence then stops with "skipped k"); otherwise announces it and lets the caller execute it
+static bool enter_outside(int k, const std::string& tok, bool need_asan) {
+    const bool can = need_asan ? kAsan : kEigenAssert;
+    if (!can) { vf::out_int("skipped", k); return false; }
+    std::fprintf(stderr, "BFL_VERIF_EXPECT outside step=%d op=%s\n", k, tok.c_str());
+    std::fflush(stderr);
+    std::cout.flush();
+    return true;
+}
+
+// square augmentation of an object without components: unsigned `components - 1`
+static bool augment_outside(const GaussianMixture& g, const MatrixXd& q) { return q.rows() == q.cols() && g.components == 0; }
+// ... which does not even assert when every block is empty: the loop just runs 2^64 times
+static bool augment_hangs(const GaussianMixture& g, const MatrixXd& q) { return augment_outside(g, q) && g.dim_covariance + q.rows() == 0; }
+// g.augmentWithNoise(g.covariance()): dangling Ref as soon as covariance_ is reallocated
+static bool self_augment_dangling(XGM& g) { return g.C().rows() == g.C().cols() && g.C().rows() > 0; }
+static bool self_augment_dangling(XG& g) { return g.C().rows() == g.C().cols() && g.C().rows() > 0; }
+static bool self_augment_dangling(XPS& g) { return g.C().rows() == g.C().cols() && g.C().rows() > 0; }
+
+static void do_resize(XG& g, const std::vector<long>& v, bool dflt) {
+    vf::Entry e("Gaussian::resize");
+    if (dflt) g.resize(v.at(0)); else g.resize(v.at(0), v.at(1));
+}
+static void do_resize(XGM& g, const std::vector<long>& v, bool dflt) {
+    vf::Entry e("GaussianMixture::resize");
+    if (dflt) g.resize(v.at(0), v.at(1)); else g.resize(v.at(0), v.at(1), v.at(2));
+}
+static void do_base_resize(XG& g, const std::vector<long>& v) {
+    vf::Entry e("GaussianMixture::resize(via GaussianMixture&)");
+    GaussianMixture& b = g;
+    b.resize(v.at(0), v.at(1), v.at(2));
+}
+static void do_base_resize(XGM&, const std::vector<long>&) { std::fprintf(stderr, "BFL_VERIF_HARNESS B on a mixture\n"); std::exit(3); }
 
 template <class X>
-static void run_gm(const vf::Case& c, std::unique_ptr<X> g, bool gauss, void (*extra)(int, X&)) {
+static void run_gm(const vf::Case& c, std::unique_ptr<X> g, void (*extra)(int, X&)) {
     const auto& ops = c.word("ops");
     dump_fields(0, *g, 1);
     bool go = dump_acc(0, *g);
@@ -166,19 +295,36 @@ static void run_gm(const vf::Case& c, std::unique_ptr<X> g, bool gauss, void (*e
         const int k = int(k0) + 1;
         const std::string rest = tok.substr(1);
         int ret = 1;
+        bool outside = false;
         switch (tok[0]) {
         case 'F': { vf::Entry e("fill"); fill_gm(*g, std::stol(rest)); break; }
         case 'C': { vf::Entry e("copy-constructor"); std::unique_ptr<X> n(new X(*g)); g = std::move(n); break; }
         case 'M': { vf::Entry e("move-constructor"); std::unique_ptr<X> n(new X(std::move(*g))); g = std::move(n); break; }
         case 'S': { vf::Entry e("copy-assignment"); std::unique_ptr<X> n(new X()); *n = *g; g = std::move(n); break; }
-        case 'R': {
-            auto v = ints(rest);
-            do_resize(*g, v);
+        case 'R': do_resize(*g, ints(rest), false); break;
+        case 'r': do_resize(*g, ints(rest), true); break;
+        case 'B': do_base_resize(*g, ints(rest)); break;
+        case 'A': {
+            MatrixXd q = getq(c, rest);
+            outside = augment_outside(*g, q);
+            if (augment_hangs(*g, q)) { vf::out_int("skipped", k); return; }
+            if (outside && !enter_outside(k, tok, false)) return;
+            vf::Entry e("GaussianMixture::augmentWithNoise");
+            ret = g->augmentWithNoise(q) ? 1 : 0;
             break;
         }
-        case 'A': { MatrixXd q = getq(c, rest); vf::Entry e("GaussianMixture::augmentWithNoise"); ret = g->augmentWithNoise(q) ? 1 : 0; break; }
+        case 'W': {
+            GaussianMixture& b = *g;
+            outside = self_augment_dangling(*g) || augment_outside(*g, g->C());
+            if (augment_hangs(*g, g->C())) { vf::out_int("skipped", k); return; }
+            if (outside && !enter_outside(k, tok, !augment_outside(*g, g->C()))) return;
+            vf::Entry e("GaussianMixture::augmentWithNoise");
+            ret = g->augmentWithNoise(b.GaussianMixture::covariance()) ? 1 : 0;
+            break;
+        }
         default: std::fprintf(stderr, "BFL_VERIF_HARNESS bad op %s\n", tok.c_str()); std::exit(3);
         }
+        if (outside) vf::out_int(P(k, "survived"), 1);
         dump_fields(k, *g, ret);
         go = dump_acc(k, *g);
         if (go && extra) extra(k, *g);
@@ -188,6 +334,12 @@ static void run_gm(const vf::Case& c, std::unique_ptr<X> g, bool gauss, void (*e
 
 static void gauss_extra(int k, XG& g) { dump_gauss_acc(k, g); }
 
+static bool concat_mismatch(XPS& p, XPS& rhs) {
+    return rhs.St().rows() != p.St().rows() || rhs.M().rows() != p.M().rows() || rhs.C().rows() != p.C().rows()
+           || rhs.C().cols() != long(p.dim_covariance * rhs.components) || rhs.M().cols() != long(rhs.components)
+           || rhs.St().cols() != long(rhs.components) || rhs.W().size() != long(rhs.components);
+}
+
 static void run_ps(const vf::Case& c, std::unique_ptr<XPS> p) {
     const auto& ops = c.word("ops");
     bool go = dump_ps(0, *p, 1);
@@ -196,25 +348,54 @@ static void run_ps(const vf::Case& c, std::unique_ptr<XPS> p) {
         const int k = int(k0) + 1;
         const std::string rest = tok.substr(1);
         int ret = 1;
+        bool outside = false;
         switch (tok[0]) {
         case 'F': { vf::Entry e("fill"); fill_ps(*p, std::stol(rest)); break; }
         case 'C': { vf::Entry e("copy-constructor"); std::unique_ptr<XPS> n(new XPS(*p)); p = std::move(n); break; }
         case 'M': { vf::Entry e("move-constructor"); std::unique_ptr<XPS> n(new XPS(std::move(*p))); p = std::move(n); break; }
         case 'S': { vf::Entry e("copy-assignment"); std::unique_ptr<XPS> n(new XPS()); *n = *p; p = std::move(n); break; }
         case 'R': { auto v = ints(rest); vf::Entry e("ParticleSet::resize"); p->resize(v.at(0), v.at(1), v.at(2)); break; }
-        case 'A': { MatrixXd q = getq(c, rest); vf::Entry e("GaussianMixture::augmentWithNoise"); ret = p->augmentWithNoise(q) ? 1 : 0; break; }
+        case 'r': { auto v = ints(rest); vf::Entry e("ParticleSet::resize"); p->resize(v.at(0), v.at(1)); break; }
+        case 'A': {
+            MatrixXd q = getq(c, rest);
+            outside = augment_outside(*p, q);
+            if (augment_hangs(*p, q)) { vf::out_int("skipped", k); return; }
+            if (outside && !enter_outside(k, tok, false)) return;
+            vf::Entry e("GaussianMixture::augmentWithNoise");
+            GaussianMixture& b = *p;                 // virtual: the ParticleSet override must run
+            ret = b.augmentWithNoise(q) ? 1 : 0;
+            break;
+        }
+        case 'W': {
+            outside = self_augment_dangling(*p) || augment_outside(*p, p->C());
+            if (augment_hangs(*p, p->C())) { vf::out_int("skipped", k); return; }
+            if (outside && !enter_outside(k, tok, !augment_outside(*p, p->C()))) return;
+            vf::Entry e("GaussianMixture::augmentWithNoise");
+            ret = p->augmentWithNoise(p->covariance()) ? 1 : 0;
+            break;
+        }
         case 'P': case 'Q': {
             auto v = ints(rest);
             XPS rhs(v.at(0), v.at(1), v.at(2), v.at(3) != 0);
             fill_ps(rhs, v.at(4));
+            outside = concat_mismatch(*p, rhs);
+            if (outside && !enter_outside(k, tok, false)) return;
             if (tok[0] == 'P') { vf::Entry e("ParticleSet::operator+="); ParticleSet& r = (*p += rhs); if (&r != p.get()) ret = -1; }
             else { vf::Entry e("operator+(ParticleSet,ParticleSet)"); std::unique_ptr<XPS> n(new XPS(*p + rhs)); p = std::move(n); }
             break;
         }
         case 'D': { XPS rhs(*p); vf::Entry e("ParticleSet::operator+="); *p += rhs; break; }
         case 'E': { vf::Entry e("operator+(ParticleSet,ParticleSet)"); std::unique_ptr<XPS> n(new XPS(*p + *p)); p = std::move(n); break; }
+        case 'Z': {                                   // p += p: the operand is the object itself
+            outside = p->components > 0;
+            if (outside && !enter_outside(k, tok, false)) return;
+            vf::Entry e("ParticleSet::operator+=");
+            *p += *p;
+            break;
+        }
         default: std::fprintf(stderr, "BFL_VERIF_HARNESS bad op %s\n", tok.c_str()); std::exit(3);
         }
+        if (outside) vf::out_int(P(k, "survived"), 1);
         go = dump_ps(k, *p, ret);
         if (!go) vf::out_int("stopped", k);
     }
@@ -225,22 +406,26 @@ int main() {
     while (vf::read_case(std::cin, c)) {
         const long cc = c.mi("c"), l = c.mi("l"), ci = c.mi("ci");
         const bool q = c.mi("q") != 0;
-        const std::string ctor = c.m("ctor", "full");   // full: (c, l, ci, q); two: (c, dim) / Gaussian(l); default: ()
+        // full: (c, l, ci, q); noq: (c, l, ci) with the default use_quaternion; two: (c, dim) / Gaussian(l); default: ()
+        const std::string ctor = c.m("ctor", "full");
         vf::out_begin(c.id);
         if (c.kind == "gm") {
             std::unique_ptr<XGM> g;
             { vf::Entry e("GaussianMixture::GaussianMixture");
-              if (ctor == "default") g.reset(new XGM()); else if (ctor == "two") g.reset(new XGM(cc, l)); else g.reset(new XGM(cc, l, ci, q)); }
-            run_gm<XGM>(c, std::move(g), false, nullptr);
+              if (ctor == "default") g.reset(new XGM()); else if (ctor == "two") g.reset(new XGM(cc, l));
+              else if (ctor == "noq") g.reset(new XGM(cc, l, ci)); else g.reset(new XGM(cc, l, ci, q)); }
+            run_gm<XGM>(c, std::move(g), nullptr);
         } else if (c.kind == "gauss") {
             std::unique_ptr<XG> g;
             { vf::Entry e("Gaussian::Gaussian");
-              if (ctor == "default") g.reset(new XG()); else if (ctor == "two") g.reset(new XG(l)); else g.reset(new XG(l, ci, q)); }
-            run_gm<XG>(c, std::move(g), true, gauss_extra);
+              if (ctor == "default") g.reset(new XG()); else if (ctor == "two") g.reset(new XG(l));
+              else if (ctor == "noq") g.reset(new XG(l, ci)); else g.reset(new XG(l, ci, q)); }
+            run_gm<XG>(c, std::move(g), gauss_extra);
         } else if (c.kind == "pset") {
             std::unique_ptr<XPS> p;
             { vf::Entry e("ParticleSet::ParticleSet");
-              if (ctor == "default") p.reset(new XPS()); else if (ctor == "two") p.reset(new XPS(cc, l)); else p.reset(new XPS(cc, l, ci, q)); }
+              if (ctor == "default") p.reset(new XPS()); else if (ctor == "two") p.reset(new XPS(cc, l));
+              else if (ctor == "noq") p.reset(new XPS(cc, l, ci)); else p.reset(new XPS(cc, l, ci, q)); }
             run_ps(c, std::move(p));
         } else {
             std::fprintf(stderr, "BFL_VERIF_HARNESS unknown kind %s\n", c.kind.c_str());
